@@ -15,7 +15,7 @@ use std::iter::FromIterator;
 use std::marker::PhantomData;
 use std::sync::atomic::{AtomicUsize, Ordering};
 use std::sync::mpsc::{channel, Receiver, Sender};
-use std::sync::Arc;
+use std::sync::{Arc, Mutex};
 
 use chrono::{DateTime, FixedOffset, Local};
 use console::Term;
@@ -568,6 +568,7 @@ fn flat_iter(files: &[FileGroup<FileInfo>]) -> impl ParallelIterator<Item = &Fil
 /// were in the different groups to end up in the same group if they have the same length
 /// and they hash to the same value. If you don't want this, you need to combine the old
 /// hash with the new hash in the provided `hash_fn`.
+#[cfg_attr(not(test), allow(dead_code))]
 fn rehash<'a, F1, F2, H>(
     groups: Vec<FileGroup<FileInfo>>,
     group_pre_filter: F1,
@@ -588,6 +589,7 @@ where
         devices,
         access_type,
         true,
+        None,
         hash_fn,
     )
 }
@@ -626,6 +628,8 @@ fn accept_group(_: &FileGroup<FileInfo>) -> bool {
 
 /// Does what [`rehash`] does. If `one_hash_per_file` is false, the paths that are the same file
 /// (hard links) are hashed separately. That is needed when the hash depends on the path.
+/// The paths that are left out because they lead to another file than the one that was scanned
+/// are reported to `log`.
 fn rehash_paths<'a, F1, F2, H>(
     groups: Vec<FileGroup<FileInfo>>,
     group_pre_filter: F1,
@@ -633,6 +637,7 @@ fn rehash_paths<'a, F1, F2, H>(
     devices: &DiskDevices,
     access_type: FileAccess,
     one_hash_per_file: bool,
+    log: Option<&dyn Log>,
     hash_fn: H,
 ) -> Vec<FileGroup<FileInfo>>
 where
@@ -657,6 +662,8 @@ where
     let mut hash_map =
         GroupMap::new(|f: HashedFileInfo| ((f.file_info.len, f.file_hash), f.file_info));
     let hash_map_ref = &mut hash_map;
+    let replaced_paths: Arc<Mutex<Vec<Path>>> = Arc::new(Mutex::new(Vec::new()));
+    let replaced_paths_ref = replaced_paths.clone();
 
     // Scope needed so threads can access shared stuff like groups or shared functions.
     // The threads we launch are guaranteed to not live longer than this scope.
@@ -668,6 +675,7 @@ where
             }
 
             let tx = tx.clone();
+            let replaced_paths = replaced_paths.clone();
 
             // Launch a separate thread for each device, so we can process
             // files on each device independently
@@ -703,6 +711,7 @@ where
                 for (_, fg) in &files.into_iter().group_by(same_work) {
                     let mut fg = fg.collect_vec();
                     let tx = tx.clone();
+                    let replaced_paths = replaced_paths.clone();
                     let guard = semaphore.clone().access_owned();
 
                     // Spawning a task into a thread-pool requires a static lifetime,
@@ -721,7 +730,6 @@ where
                         // A path that has been pointed to another file since then (replaced
                         // by renaming a new file over it) must not get the hash of that file,
                         // nor lend its own hash to the others.
-                        // Such a path is hashed on its own, as the file it is now.
                         let mut replaced = Vec::new();
                         if fg.len() > 1 {
                             let (same, other) = fg.into_iter().partition(is_still_same_file);
@@ -751,15 +759,12 @@ where
                                 tx.send(f).unwrap();
                             }
                         }
-                        for mut f in replaced {
-                            if let Ok(id) = FileId::new(&f.file_info.path) {
-                                f.file_info.id = id;
-                            }
-                            let old_hash = f.file_hash.clone();
-                            if let Some(hash) = hash_fn((&mut f.file_info, old_hash)) {
-                                f.file_hash = hash;
-                                tx.send(f).unwrap();
-                            }
+                        // What is known about such a path (its length, the hashes of the
+                        // earlier stages) belongs to the file it was. It is left out like a
+                        // file whose length has changed, and the user is told.
+                        if !replaced.is_empty() {
+                            let mut replaced_paths = replaced_paths.lock().unwrap();
+                            replaced_paths.extend(replaced.into_iter().map(|f| f.file_info.path));
                         }
                         // This forces moving the guard into this task and be released when
                         // the task is done
@@ -780,6 +785,17 @@ where
     })
     .unwrap();
 
+    if let Some(log) = log {
+        let mut replaced_paths = replaced_paths_ref.lock().unwrap();
+        replaced_paths.sort();
+        for path in replaced_paths.iter() {
+            log.warn(format!(
+                "File {} was replaced by another file since it was scanned, leaving it out",
+                path.display()
+            ));
+        }
+    }
+
     // A group that is passed on untouched may consist of the paths of one file. If one of them
     // has been pointed to another file since the scan, the group has to be examined after all.
     let (groups_to_pass, groups_to_examine): (Vec<_>, Vec<_>) =
@@ -793,6 +809,7 @@ where
             devices,
             access_type,
             one_hash_per_file,
+            log,
             hash_fn,
         ),
     };
@@ -1151,6 +1168,7 @@ fn group_transformed(ctx: &GroupCtx<'_>, files: Vec<FileInfo>) -> Vec<FileGroup<
         &ctx.devices,
         FileAccess::Sequential,
         path_independent,
+        Some(ctx.log),
         |(fi, _)| {
             let chunk = FileChunk::new(&fi.path, FilePos(0), fi.len);
             let result =
@@ -1215,12 +1233,14 @@ fn group_by_prefix(
         ProgressBarLength::Items(file_count as u64),
     );
 
-    let groups = rehash(
+    let groups = rehash_paths(
         groups,
         pre_filter,
         |g| g.matches(&ctx.group_filter),
         &ctx.devices,
         FileAccess::Random,
+        true,
+        Some(ctx.log),
         |(fi, _)| {
             progress.inc(1);
             let prefix_len = if fi.len <= prefix_len {
@@ -1282,12 +1302,14 @@ fn group_by_suffix(
         ProgressBarLength::Items(file_count as u64),
     );
 
-    let groups = rehash(
+    let groups = rehash_paths(
         groups,
         pre_filter,
         |g| g.matches(&ctx.group_filter),
         &ctx.devices,
         FileAccess::Random,
+        true,
+        Some(ctx.log),
         |(fi, old_hash)| {
             progress.inc(1);
             // the suffix can't be longer than the file (e.g. large --max-suffix-size)
@@ -1323,12 +1345,14 @@ fn group_by_contents(
         ProgressBarLength::Bytes(bytes_to_scan.0),
     );
 
-    let groups = rehash(
+    let groups = rehash_paths(
         groups,
         pre_filter,
         |g| g.matches_strictly(&ctx.group_filter),
         &ctx.devices,
         FileAccess::Sequential,
+        true,
+        Some(ctx.log),
         |(fi, _)| {
             let chunk = FileChunk::new(&fi.path, FilePos(0), fi.len).of_file_len(fi.len);
             ctx.hasher
